@@ -1,9 +1,11 @@
 package quic
 
-// [UQUIC] SetConnectionIDLimit was previously used to set a custom active connection ID
-// limit on the connIDManager. In quic-go v0.59.1, the connIDManager no longer stores
-// this limit — it is enforced via protocol.MaxActiveConnectionIDs and the peer's
-// transport parameters. This function is kept as a no-op for API compatibility;
-// the ActiveConnectionIDLimit value in the transport parameters already controls
-// how many connection IDs the server will send us.
-func (h *connIDManager) SetConnectionIDLimit(_ uint64) {}
+// [UQUIC] SetConnectionIDLimit tells the connIDManager which active_connection_id_limit this
+// (spec-driven) client advertised in its transport parameters. The peer is entitled to issue
+// that many connection IDs, so Add must not raise CONNECTION_ID_LIMIT_ERROR before the
+// advertised limit is exceeded, even if it is larger than protocol.MaxActiveConnectionIDs
+// (e.g. the Firefox parrots advertise 8). A limit below protocol.MaxActiveConnectionIDs has
+// no effect: we keep storing up to MaxActiveConnectionIDs, as every non-spec connection does.
+func (h *connIDManager) SetConnectionIDLimit(limit uint64) {
+	h.advertisedLimit = limit
+}
